@@ -26,7 +26,7 @@ From Coq Require Import String.
 From Coq Require Import List ZArith Bool Permutation Lia.
 From SV Require Import Base.Base Fmt.VBits Fmt.VExpr Fmt.VDoc Fmt.VTop Fmt.VElab Fmt.VSpec Fmt.VSem
   Proofs.VerilogLists Proofs.VerilogSlice Proofs.VerilogGrow Proofs.VerilogPort Proofs.VerilogAssign Proofs.VerilogTop
-  Proofs.VElabBase Proofs.VElabInv Proofs.VElabWf Proofs.VElabExpr Proofs.VElabConn Proofs.VElabAssign Proofs.VElabPorts Proofs.VElabNets Proofs.VElabTop Proofs.VElabStable Proofs.VElabVis Proofs.VElabFrame Proofs.VElabDoc.
+  Proofs.VElabBase Proofs.VElabInv Proofs.VElabWf Proofs.VElabExpr Proofs.VElabConn Proofs.VElabAssign Proofs.VElabPorts Proofs.VElabNets Proofs.VElabTop Proofs.VElabStable Proofs.VElabVis Proofs.VElabFrame Proofs.VElabDoc Proofs.VElabRun.
 Import ListNotations.
 Local Close Scope string_scope.
 Open Scope Z_scope.
@@ -511,6 +511,62 @@ Proof.
   eexists; eexists. split; [reflexivity|]. split; [reflexivity|]. split.
   - intros m' [<-|[<-|[]]] _; cbn; repeat constructor; cbn; discriminate.
   - destruct (elab ex_doc) as [n|e] eqn:E; [eexists; reflexivity|]. vm_compute in E. discriminate.
+Qed.
+
+(* whole documents, by induction over the modules and over the items of a body: in the LAST module of a document (a flat
+   netlist is one module; the cells it uses need not be declared), an instance with a named port map followed by items
+   that are not port declarations. The reader reaches the instance in the state s - after the modules before, the
+   header and the items before - and under the typing hypotheses of the input class ON s (selects inside the declared
+   ranges; the ports the referenced definition has so far are based at 0) the VALUE elab returns shows, in the
+   definition of that module, bit k of every connection expression joined to bit k of the port. *)
+Theorem C06_full_last_module_instance : forall pre m before m' i params attrs l after n,
+  elab (pre ++ [m]) = Ok n -> vm_cell m = false ->
+  vm_body m = before ++ IInst m' i params attrs (CNamed l) :: after -> Forall not_port_decl after ->
+  exists s0 s5 cur s d,
+    fold_res module_decl pre st_init = Ok s0 /\ module_open m s0 = Ok (s5, cur) /\ fold_res (body_item cur) before s5 = Ok s /\
+    nth_error (nv_defs n) cur = Some d /\ nd_name d = vm_name m /\
+    (vm_name m <> m' ->
+     Forall (conn_typed (crange (get_def cur s))) l -> Forall (fun pc => has_glob (fst pc) = false) l ->
+     (forall k, find_def m' s = Some k -> all_lo0 (get_def k s)) ->
+     forall pc e r, In pc l -> In (e, r) (conn_meaning i (crange (get_def cur s)) pc) -> In e (net_of r d)).
+Proof. exact last_module_instance_value. Qed.
+Print Assumptions C06_full_last_module_instance.
+
+(* the first module of ex_doc alone (sub and GND are never declared): u1's map is followed by a positional map and an
+   assign; the theorem puts bit 1 of {b, w[2]} = b on bit 1 of q, and bit 1 of a[1:0] on bit 1 of p *)
+Example C06_full_last_module_witness :
+  match elab (firstn 1 ex_doc) with
+  | Ok n => exists d, nth_error (nv_defs n) 0 = Some d /\ nd_name d = S "top" /\
+                      In (EInst (S "u1") (LName (S "q")) 1) (net_of (S "b", 0) d) /\
+                      In (EInst (S "u1") (LName (S "p")) 1) (net_of (S "a", 1) d)
+  | Err _ => False
+  end.
+Proof.
+  destruct (elab (firstn 1 ex_doc)) as [n|er] eqn:E; [|vm_compute in E; discriminate].
+  destruct (C06_full_last_module_instance [] (nth 0 ex_doc {| vm_name := []; vm_cell := true; vm_params := []; vm_attrs := []; vm_header := []; vm_body := [] |})
+              (firstn 4 (vm_body (nth 0 ex_doc {| vm_name := []; vm_cell := true; vm_params := []; vm_attrs := []; vm_header := []; vm_body := [] |})))
+              (S "sub") (S "u1") [] []
+              [(S "p", Some (DAtom (DPart (S "a") 1 0))); (S "q", Some (DCat [DId (S "b"); DBit (S "w") 2])); (S "r", None)]
+              (skipn 5 (vm_body (nth 0 ex_doc {| vm_name := []; vm_cell := true; vm_params := []; vm_attrs := []; vm_header := []; vm_body := [] |})))
+              n E eq_refl eq_refl) as (s0 & s5 & cur & s & d & E0 & E5 & Es & Hd & Nd & K).
+  { repeat constructor. }
+  cbn in E0. inversion E0; subst s0. clear E0.
+  vm_compute in E5. inversion E5; subst s5 cur. clear E5.
+  vm_compute in Es. inversion Es; subst s. clear Es.
+  exists d. split; [exact Hd|]. split; [exact Nd|].
+  match type of K with ?A -> _ => assert (H1 : A) by (vm_compute; discriminate) end. specialize (K H1).
+  match type of K with ?A -> _ => assert (H2 : A) end.
+  { constructor; [cbn; split; [reflexivity|]; cbn; exists 0, 4%nat; split; [vm_compute; reflexivity|lia]|].
+    constructor; [cbn; split; [discriminate|]; constructor; [split; [reflexivity|exact Logic.I]|];
+                  constructor; [split; [reflexivity|]; cbn; exists 0, 4%nat; split; [vm_compute; reflexivity|lia]|constructor]|].
+    constructor; [exact Logic.I|constructor]. }
+  specialize (K H2).
+  match type of K with ?A -> _ => assert (H3 : A) by (repeat constructor) end. specialize (K H3).
+  match type of K with ?A -> _ => assert (H4 : A) by (intros k Hk; vm_compute in Hk; discriminate) end. specialize (K H4).
+  rename K into T.
+  split.
+  - apply (T (S "q", Some (DCat [DId (S "b"); DBit (S "w") 2]))); [right; left; reflexivity|]. vm_compute. left. reflexivity.
+  - apply (T (S "p", Some (DAtom (DPart (S "a") 1 0)))); [left; reflexivity|]. vm_compute. left. reflexivity.
 Qed.
 
 (* ANSI headers: a direction, and the range given with it or after it, stays in force for the names that follow
